@@ -14,6 +14,7 @@ import (
 
 	"pgregory.net/rapid"
 
+	"github.com/dolthub/dolt/go/libraries/doltcore/dbfactory"
 	"github.com/dolthub/dolt/go/libraries/doltcore/doltdb"
 	"github.com/dolthub/dolt/go/libraries/doltcore/ref"
 	"github.com/dolthub/dolt/go/libraries/utils/filesys"
@@ -35,6 +36,10 @@ type verifRepo struct {
 	branches map[string]int // branch name -> commit index it points at
 	tags     map[string]int
 	reopens  int
+	// dangling commits not yet reachable from any ref: they sit in the write buffer and are
+	// only persisted by the next ref update, so a ref is put on each before a re-open (as the
+	// callers of CommitDangling do)
+	unreferenced []int
 }
 
 func verifMeta(i int) *datas.CommitMeta {
@@ -49,7 +54,12 @@ func verifMeta(i int) *datas.CommitMeta {
 func (r *verifRepo) open(t *rapid.T, ctx context.Context) {
 	var err error
 	if r.dir != "" {
-		r.ddb, err = doltdb.LoadDoltDB(ctx, types.Format_Default, "file://"+r.dir, filesys.LocalFS)
+		// no singleton cache: every open constructs a fresh store over the directory (a real
+		// re-open); chunk journal as for a local dolt database
+		r.ddb, err = doltdb.LoadDoltDBWithParams(ctx, types.Format_DOLT, "file://"+r.dir, filesys.LocalFS, map[string]interface{}{
+			dbfactory.DisableSingletonCacheParam: struct{}{},
+			dbfactory.ChunkJournalParam:          struct{}{},
+		})
 	} else {
 		r.ddb, err = doltdb.DoltDBFromCS(r.storage.NewViewWithDefaultFormat(), "verif")
 	}
@@ -59,6 +69,14 @@ func (r *verifRepo) open(t *rapid.T, ctx context.Context) {
 }
 
 func (r *verifRepo) reopen(t *rapid.T, ctx context.Context) {
+	for _, i := range r.unreferenced {
+		name := fmt.Sprintf("keep/c%d", i)
+		if err := r.ddb.SetHead(ctx, ref.NewBranchRef(name), r.addrs[i]); err != nil {
+			t.Fatalf("SetHead(%s, commit %d): %v", name, i, err)
+		}
+		r.branches[name] = i
+	}
+	r.unreferenced = nil
 	if r.dir != "" {
 		if err := r.ddb.Close(); err != nil {
 			t.Fatalf("close database: %v", err)
@@ -183,6 +201,9 @@ func verifBuildRepo(t *rapid.T, ctx context.Context, d *verifDag, fileBacked boo
 			}
 		}
 		r.addrs = append(r.addrs, addr)
+		if d.how[i][len(d.how[i])-1] == 'd' {
+			r.unreferenced = append(r.unreferenced, i)
+		}
 	}
 	return r
 }
